@@ -35,12 +35,13 @@ prop("C18",
 prop("C03",
      level="proof",
      bounded=["Observable registry harness (observable_registry): observer lists of 0..3 members (the list is a concrete Python list in the encoding); the per-item notification contracts are unbounded"],
-     assumptions=["observers do not mutate the observer list or raise while being notified (precondition)",
+     assumptions=["observers do not raise while being notified (precondition); an observer that calls unwatch_all from inside its callback is covered (removal_during_notification_takes_effect_at_once), other list mutations during a notification are not",
                   "temperature items: the decoded-value comparison is proved in C14 (float injectivity); here all non-temperature shapes"],
      explanation="replace_status_block_segment + status_block_changed proved per accessor shape: notify exactly once with (old,new) iff decoded value differs, observer sees the new block; symbolic block/offset/patch incl. straddling patches")
 
 prop("C14",
      level="proof",
+     ground=[tables.c14_presentation_ground],
      budget={"quick": 240, "thorough": 900},
      assumptions=["the stored word enters through the assumed contract of the base Word read (any 16-bit word); the base read/write themselves are proved in C02",
                   "IEEE-754 binary64 with round-to-nearest-even for / * - + and truncation for int(): z3 FloatingPoint theory",
@@ -58,6 +59,8 @@ prop("C04",
 
 prop("C01",
      level="proof",
+     ground=[tables.c04_regex_bounded],
+     bounded=["framing of a segment inside <DATAS>..</DATAS> (GeckoPacketProtocolHandler._extract_packet_parts, re.search): bounded stand-in c04_packet_regex_bounded -- block contents that spell frame delimiters must travel intact; shared with C04"],
      budget={"quick": 60, "thorough": 300},
      assumptions=["ENVIRONMENT contract (assumed, it is the property's fault model): while a transfer is in progress every delivered STATV is some element of the spa's chain for that transfer -- any order, multiplicity or omission -- or the wait times out; delays longer than the gap between distinct transfers and forged segments are excluded",
                   "asyncio.Lock mutual exclusion (assumed contract of the library primitive)",
@@ -69,7 +72,7 @@ prop("C05",
      ground=[lexical.c05_lexical],
      assumptions=["history clause by induction outside the solver: every operation (STATP message, refresh install) has a functional contract block' = op(block) that depends on no hidden state (buffer invariant proved), so a history is the composition of the per-operation contracts",
                   "message well-formedness (STATP, count, 4-byte records, last record >= 2 bytes) is a precondition; STATQ datagrams arriving at the client are outside the property",
-                  "sequence numbers: contract of get_and_increment_sequence_counter(False) from C16 (assumed here, proved there)"],
+                  "sequence numbers: the contract of get_and_increment_sequence_counter(False) used at the acknowledgement is discharged on the real counters of both connection classes (harnesses shared with C16)"],
      explanation="per-message decode contract incl. stale-buffer independence, exactly one STATQ ack 1..191, per-record step contract of both apply loops (loop cut: one splice per record, in order), threaded buffer cleared; lexical atomicity of the async path")
 
 prop("C17",
@@ -92,7 +95,7 @@ prop("C07",
      ground=[lexical.c07_lexical],
      assumptions=["rely condition at every suspension point: other consumer tasks may remove the head (clearing the mark) and producers may append; only the unhandled consumer marks -- checked lexically",
                   "asyncio.Queue is modelled as a list (put_nowait appends, get_nowait removes the first element)",
-                  "NOT decided: the head-of-line bound 'no datagram stays at the head for more than a few polling intervals' (scheduler / fairness)"],
+                  "head-of-line clause: proved as progress per iteration of the discard loop (whatever was at the head when an iteration began is gone when it ends, for every datagram content; producers never clear the mark; every arrival is appended, any queue length); that every consumer task gets to run once per polling interval is ASSUMED (asyncio scheduling fairness is not modelled), so the bound in wall-clock polling intervals is conditional on it"],
      explanation="queue representation invariant (ghost marked item), consume / unhandled consume loop contracts with interference at every suspension point, addressed-packet gate with all four address components symbolic")
 
 prop("C20",
@@ -100,7 +103,7 @@ prop("C20",
      ground=[lexical.c20_lexical],
      bounded=["cleanup_removes_exactly_the_finished: 0..4 registered handlers (list comprehension over a concrete list)", "sends_leave_in_fifo_order_paced: 0..3 queued sends (only the head is touched)"],
      assumptions=["threading.Lock mutual exclusion (ASSUMED); no thread interleavings explored",
-                  "NOT decided: the blocking client completing its handshake against the simulator under every loss pattern within the retry budget (liveness across two engine threads); the per-datagram reassembly step it relies on is proved (shared with C01)",
+                  "NOT decided as a whole: the blocking client completing its handshake against the simulator under every loss pattern within the retry budget (liveness across two engine threads). Proved per step instead: every engine step contains every failure (so the engine survives), each answered handshake step registers and queues exactly the next request with a retry budget (version -> channel -> config -> full block, all shipped table names), the per-datagram reassembly step (shared with C01) and the finishing hook, which never raises however long the handshake takes",
                   "'retransmitted exactly N times' is read per engine iteration: one retransmission per consumed retry, removal at retry 0"],
      explanation="per-step contracts of one engine iteration under a ghost clock: FIFO + throttle + time-stamp of _process_send_requests, first-match dispatch by loop invariant over a list of any length with an uninterpreted acceptance predicate, exception containment, retry accounting, cleanup; lexical lock domination")
 
@@ -113,7 +116,7 @@ prop("C13",
 
 prop("C15",
      level="proof",
-     bounded=["reply_listed_once_and_filter_honoured: 0..2 spas already listed"],
+     bounded=["reply_listed_once_and_filter_honoured / blocking_reply_listed_once_and_request_recognised: 0..2 spas already listed"],
      assumptions=["reply timing is the environment: the reply handler may run any number of times at each suspension point of discover (havoc of the result list subject to its invariant)",
                   "asyncio.sleep(d) returns within d + 0.05 s (ASSUMED); 'within the discovery timeout' is proved modulo one polling interval (0.1 s)",
                   "spa identifiers are 'SPA..' style (not '1', not starting with IOS/AND): hello decode precondition, see C04",
@@ -122,7 +125,7 @@ prop("C15",
 
 prop("C08",
      level="proof",
-     assumptions=["events raised concurrently by other tasks while a client event handler is suspended are not explored (sequential semantics of _handle_event)",
+     assumptions=["events raised concurrently by other tasks while a client event handler is suspended: explored only for the completion window of a connect (an RF-error storm or retry exhaustion reported by the spa's own tasks while the client handles CONNECTION_SPA_COMPLETE); elsewhere _handle_event is taken as sequential",
                   "the client's handle_event does not modify manager state",
                   "spa-raised events presuppose a spa object; RUNNING_SPA_WATER_CARE_ERROR presupposes a facade; CONNECTION_STARTED presupposes a configured identifier (ReconnectButton needs unique_id)"],
      explanation="_handle_event compared with the lifecycle table for every event in every invariant state (ground enumeration through the real code), delivery-point assertions in the abstract handle_event, ready/teardown ghost bracket, try/finally brackets of locate/connect incl. exceptional exits, reset post-state")
@@ -149,15 +152,17 @@ prop("C12",
      budget={"quick": 60, "thorough": 300},
      assumptions=["combination classes as in C11; combinations on which no facade can be constructed (C11 known findings: no TempUnits / heater items missing) are outside this property's reach (precondition)",
                   "guarded lists: constructors and loop bodies of guarded elements are executed speculatively (their side effects on other objects -- observer registration -- over-approximate); exceptions and returns under a guard fork on the guard",
-                  "only the async facade (GeckoAsyncFacade) is under contract; the legacy sync GeckoFacade.scan_outputs is not"],
+                  "the blocking GeckoFacade.scan_outputs is under the same contract except for order (it de-duplicates through set(), whose iteration order is unspecified)"],
      explanation="presence guard of every element of the facade's pump / blower / light lists proved equivalent to the wiring condition of the statement, for every block; order, class, name, demand item and mode list from the device table; sensor lists; distinct keys and unique ids; lookup by key")
 
 prop("C19",
      level="proof",
-     ground=[tables.c19_parse_bounded],
-     bounded=["traffic_segment_round_trips_bounded: GeckoSnapshot._re_data_segment on every 1-byte payload and every 2-byte payload whose first byte is one of 19 tricky values (quick) / any value (thorough)"],
+     ground=[tables.c19_parse_bounded, tables.c19_shipped_files_ground, tables.c19_writer_parser_bounded],
+     bounded=["traffic_segment_round_trips_bounded: GeckoSnapshot._re_data_segment on every 1-byte payload and every 2-byte payload whose first byte is one of 19 tricky values (quick) / any value (thorough)",
+              "c19_writer_parser_bounded: GeckoShell.do_snapshot -> log file -> GeckoSnapshot.parse_log_file, 151 version/name cases x fixed blocks (native)"],
      assumptions=["PARTIAL claim. ASSUMED and outside the verifier: regular-expression capture (which substring of a log line reaches each handler), logging.Formatter ('%s' of a list is str(list), of bytes is repr(bytes)), file iteration in parse_log_file, datetime",
-                  "NOT claimed: that each of the 34 shipped snapshot files parses and is served unchanged (no contract within reach decides file parsing; running them would be testing)",
+                  "shipped snapshot files: a finite closed set, enumerated COMPLETELY through the real parse_log_file and GeckoSimulator.set_snapshot by native execution (ground, not deductive: regular expressions and file iteration are outside the verifier); serving the loaded block to a client is the simulator chain contract shared with C01",
+                  "writer side (GeckoShell.version_strings / do_snapshot through logging.Formatter): BOUNDED native round trip only -- every shipped platform x config x log name with config != log, 6 blocks, 4 snapshot names",
                   "the traffic-log reassembly of whole transfers reuses the C01 chain contract; only the per-segment text decode is checked here, bounded",
                   "repr() / ast.literal_eval / str() / hex() on concrete values are executed by CPython (partial evaluation)"],
      explanation="hex-list decode: element lemmas for all 256 byte values + separator lemma + one full block through the real _re_data (ground, complete); header getters; set_snapshot contract per platform with differing config/log versions and a symbolic block; bounded per-segment traffic decode")
